@@ -78,11 +78,15 @@ func newTaggedSession(tag int) *SessionState {
 func checkGot(got *SessionState, ok bool, want int) {
 	if want == 0 {
 		verifAssert("C11.lru.absentNotFound", !ok || got == nil)
+		// C10: an identifier the cache no longer holds (never stored, deleted or EVICTED) is unknown: the server
+		// then falls back to a full handshake instead of resuming somebody else's session
+		verifAssert("C10.cache.unknownOrEvictedIdNotFound", !ok || got == nil)
 		return
 	}
 	verifAssert("C11.lru.presentFound", ok && got != nil)
 	if ok && got != nil {
 		verifAssert("C11.lru.latestValue", len(got.sessionId) == 1 && int(got.sessionId[0]) == want)
+		verifAssert("C10.cache.heldIdReturnsItsOwnSession", len(got.sessionId) == 1 && int(got.sessionId[0]) == want)
 		verifAssert("C11.lru.masterSecretIntact", len(got.masterSecret) == 48 && int(got.masterSecret[0]) == want && int(got.masterSecret[47]) == want)
 	}
 }
@@ -90,7 +94,7 @@ func checkGot(got *SessionState, ok bool, want int) {
 // Arbitrary operation sequences: Put(k,new) / Put(k,earlier object: the createNewSession aliasing pattern) /
 // Put(k,nil) / Get(k) / Get(""), keys arbitrary one-byte strings (all equality patterns).
 //
-//verif:harness props=C11 paths=300000 tpaths=5000000 reach=done,evicted,hit,miss
+//verif:harness props=C11,C10 paths=300000 tpaths=5000000 reach=done,evicted,hit,miss
 func VerifHarness_C11_lru() {
 	capa := verifSplitInt("cap", 1, verifBound(3, 4))
 	c := NewLRUSessionCache(capa).(*lruSessionCache)
